@@ -237,7 +237,7 @@ impl Arm for C11 {
     }
     fn runs(&self, tier: Tier) -> u64 {
         match tier {
-            Tier::Quick => 120,
+            Tier::Quick => 250,
             Tier::Thorough => 1500,
         }
     }
